@@ -341,8 +341,16 @@ def layer_crash(ctx, tmp):
                 if died:
                     ctx.mon('file-size-limit-hit-while-storing')
             else:
-                r = run_child(jobs, d, {'C15_RAISE_LINE': '%d:%s' % (k, inj.split('-')[1])})
+                # the process survives the injected exception and uses the same template again: the second use renders
+                # what it renders without a cache directory
+                r = run_child(jobs + jobs, d, {'C15_RAISE_LINE': '%d:%s' % (k, inj.split('-')[1])})
                 died = bool(r['results']) and str(r['results'][0]).startswith('RAISED')
+                if r['results'] and len(r['results']) == 2 * len(jobs):
+                    ctx.mon('retries-in-the-surviving-process')
+                    if r['results'][len(jobs):] != ref:
+                        ctx.violation('retry-after-an-interrupted-load-fails', '%s injected at line step %d while %s was stored / loaded: the same process, '
+                                      'using the template again, got %r; without a cache directory %r' % (inj, k, tname, r['results'][len(jobs):], ref),
+                                      {'kind': 'crash', 'injector': inj, 'step': k, 'template': tname})
             if died:
                 ctx.mon('child-died-at-step')
             ctx.case(key=('crash', inj, k, tname), nontrivial=died,
